@@ -91,7 +91,8 @@ class C10(Prop):
         "bisection_inverses_terminate", "bisection_inverses_real_reading_hangs_above_sup", "bisection_bracket_returns_at_infinity", "mixture_log_versions_partial", "incomplete_gamma_structure", "generic_api_forwards", "lognormal_laws", "gam_sxp_closed_forms",
         "gam_sxp_textbook_laws", "gam_sxp_code_vs_textbook", "gam_sxp_code_close", "mixture_full_laws",
         "mixture_sample_is_component_inverse", "transformed_samples", "sampler_primitive_arguments",
-        "gam_sxp_inverse_laws", "mixgev_log_versions", "hxp_inverse_laws", "mixgev_code_close_everywhere", "inverse_right_and_samples")]
+        "gam_sxp_inverse_laws", "mixgev_log_versions", "hxp_inverse_laws", "mixgev_code_close_everywhere", "inverse_right_and_samples",
+        "bisection_total_generic", "hxp_invcdf_total", "sxp_gam_invcdf_total_partial", "mixgev_invcdf_total")]
     claimed = True
     technique = ("Lean 4 proof about the C functions translated from the working tree on every run (clang-14 AST -> Lean, polymorphic "
                  "over a numeric class): real-analysis theorems at the R instance, the same definitions executed at Float bit-for-bit "
@@ -110,13 +111,19 @@ class C10(Prop):
                   "LogGamma/IncompleteGamma are the hand model of the C algorithm read over R: how far they are from log Gamma and from the "
                   "integrals P, Q is NOT proved (it enters gam_sxp_code_close as explicit epsilon, delta; monitored ~1e-9 / ~1e-7); erfc over R is the "
                   "mathematical erfc (Gaussian integral), that esl_stats_erfc agrees with it is L0; the loops of the four bisection inverses carry a fuel "
-                  "argument (none = still running); esl_rnd_Gamma / esl_rnd_Gaussian / esl_rnd_DChoose are not modelled here: the samplers are functions of "
+                  "argument, but from an explicit fuel on (BisectTotal.fuelRight/fuelGam/fuelMix: log3 of the reach + log2 of width/(1e-6 delta) passes) the "
+                  "translated functions return one fuel-independent value over R (hxp unconditionally; sxp/gam given the named hypothesis "
+                  "InvTotal.IncGammaPWithin; mixgev given two bracketing points of its cdf); esl_rnd_Gamma / esl_rnd_Gaussian / esl_rnd_DChoose are not modelled here: the samplers are functions of "
                   "the variate (and component) they yield.")
     trusted_base = ["translate/c2lean.py: clang-14 JSON AST -> Lean (operators, libm names, literals from source text); tied by running every "
                     "translated function at Float against the C function bit-for-bit (harness/h_dist.c, ASan+UBSan build of the working tree)",
                     "Lean compiler/runtime and the system libm for the executable driver; gcc -O1 -ffp-contract=off",
                     "mpmath 1.3 at 50 digits for the L0 monitors (closed forms re-stated in props/c10_ref.py)"]
-    assumptions = ["struct parameters (ESL_HYPEREXP, ESL_MIXGEV) are Lean structures with the members the translated functions use; arrays are "
+    assumptions = ["NAMED special-function hypotheses that remain (stated as hypotheses of the theorems that use them, never as axioms): "
+                   "InvTotal.IncGammaPWithin a eps (esl_stats_IncompleteGamma's P, hand model over R, within eps of the regularised incomplete gamma integral for all y > 0) "
+                   "in sxp_gam_invcdf_total_partial; |Num.logGamma a - log Gamma a| <= eps and |Num.incGammaP/Q a y - P/Q a y| <= delta at the arguments used in "
+                   "gam_sxp_code_close; (realIncGamma a y).isSome (the algorithm converges within its 99 / 9999 iterations) in gam_laws_partial / sxp_laws_partial",
+                   "struct parameters (ESL_HYPEREXP, ESL_MIXGEV) are Lean structures with the members the translated functions use; arrays are "
                    "lists read with getD (default 0.0) and written with List.set: theorems carry K <= length where a store matters; the scratch "
                    "vector wrk is local to one call (its contents are not carried across calls)",
                    "samplers: the one primitive draw (esl_rnd_UniformPositive / esl_rnd_Gamma / esl_rnd_Gaussian) becomes the parameter u, the arguments handed "
